@@ -60,6 +60,23 @@ def special_cases(rng):
                 others.append(q)
         for extra in ([], [b"-b"]):
             out.append(case(tree, [b"-p%d" % strip] + extra, text, {target}, others, f"Index -p{strip}"))
+    # names of git's extended header lines without any -p (the base name is what counts), with a file of the same base name in the
+    # directory the header names: a pure rename / copy, and with hunks (seeded change C16-m4)
+    for op in ("rename", "copy"):
+        for with_hunk in (False, True):
+            for extra in ([], [b"-b"], [b"--dry-run"]):
+                text = emit.git_text(hs if with_hunk else [], b"lib/util.c", b"lib/helper.c", op)
+                tree = {b"util.c": ("f", gen.render(a, "keep"), 0o644), b"lib/util.c": ("f", gen.render(a, "keep"), 0o644), b"lib/other.c": ("f", b"x\n", 0o644)}
+                tg = {b"helper.c", b"util.c"} if op == "rename" else {b"helper.c"}
+                out.append(case(tree, extra, text, tg, [b"lib/util.c", b"lib/other.c"] + ([b"util.c"] if op == "copy" else []), f"git {op} without -p"))
+                out[-1]["written"] = b"helper.c"
+    # a patch creating a file whose old and new names do not exist while its Index: name does: the Index file is the target (seeded change C16-m5)
+    hs_new = gen.make_hunks([], a, 3)
+    for extra in ([], [b"-b"], [b"--dry-run"]):
+        body = emit.unified_text(hs_new, b"/dev/null", b"conf.h.new")
+        text = b"Index: conf.h\n" + b"=" * 67 + b"\n" + body
+        tree = {b"conf.h": ("f", b"", 0o644), b"conf.c": ("f", b"x\n", 0o644)}
+        out.append(case(tree, extra, text, {b"conf.h"}, [b"conf.c"], "creating patch, Index: names an existing file"))
     return out
 
 
@@ -101,7 +118,7 @@ def run(R):
             if r.tmp_left:
                 R.oracle_fail(f"temporary file left in the temp directory: {r.tmp_left[:2]}", data)
             if "targets" in c and b"--dry-run" not in c["opts"] and not c["how"].endswith("delete everything") and r.exit == 0:
-                t = next(iter(c["targets"]))
+                t = c.get("written") or next(iter(c["targets"]))
                 if t not in r.after or (t in r.before and r.after[t][1] == r.before[t][1]):
                     R.oracle_fail(f"{c['how']}: the intended target {t!r} was not written", data)
     R.dist["C16"] = dist
